@@ -55,13 +55,18 @@ Scn == [vuDoc : Validity, vuE1 : Validity, sig : {"none", "valid", "invalid", "w
         \* reload: source A (a file or a URL) was loaded before with older content -- other keys, other locations, an extra
         \* category -- and every query was asked once; then it is loaded again with the present content.  What is served
         \* afterwards is the present content.
-        reload : BOOLEAN]
+        reload : BOOLEAN,
+        \* how e2 declares its two entity categories: two values of one Attribute, two Attribute elements of the same Name,
+        \* two EntityAttributes containers -- the same declaration three ways
+        catLayout : {"one", "twoAttributes", "twoContainers"}]
 
 VARIABLES scn, pc, loaded     \* loaded: sequence of sources registered, in load order
 vars == <<scn, pc, loaded>>
 \* a tampered or wrapped aggregate is only meaningful where a verification certificate is configured
 \* (without one it is simply another document)
-WellFormed(s) == /\ s.sig \in {"invalid", "wrapped"} => s.cert
+WellFormed(s) == /\ s.catLayout # "one" => /\ s.sig = "none" /\ ~s.cert /\ ~s.dupe /\ s.order = "AB" /\ ~s.bLoose /\ s.via = "load" /\ ~s.reload
+                                           /\ s.vuDoc = "absent" /\ s.vuE1 = "absent"
+                 /\ s.sig \in {"invalid", "wrapped"} => s.cert
                  /\ (s.bLoose => s.order = "BA" /\ s.sig \in {"none", "valid"})
                  /\ (s.via = "imp" => s.cert /\ ~s.bLoose)
                  /\ (s.reload => s.via = "load" /\ ~s.bLoose /\ s.sig \in {"none", "valid"} /\ s.vuDoc \in {"absent", "future"} /\ s.vuE1 # "pastOffset")      \* (a refresh that fails leaves the earlier content in place: not modelled)
